@@ -1,7 +1,8 @@
 SPECIFICATION SpecMC
 CONSTANTS
   Cycles = 3
-  Lost = {"keepNext", "keepLines", "br", "tbl", "bms", "bme", "sdt", "math", "titlePg", "pgNumType", "bCs", "pBdr", "fldChar", "wrapTight", "cNvPicPr", "gridSpan"}
+  Lost = {"keepNext", "keepLines", "br", "tbl", "titlePg", "pgNumType", "bCs", "pBdr", "fldChar", "wrapTight", "cNvPicPr", "gridSpan"}
+  LostKinds = {"bms", "bme", "sdt", "math"}
   MCCtors = {"c.para", "c.headingbm", "c.tbl.2x2", "c.toc", "c.img.png", "c.math.block"}
   MCFeats = {"p.keepNext.on", "p.bold.on", "p.bold.off", "p.format.full", "p.border.all", "p.addbreak", "p.struct.field", "t.nested.d1", "t.merge.h", "t.merge.v", "t.cellimage", "i.fl.tight", "i.alt"}
   MCSect = {"s.titlepg.on", "s.margins", "s.header.default"}
